@@ -123,7 +123,10 @@ def runSched {σ : Type} (arrive : σ → Bytes → σ) (complete : σ → σ) :
 
 def caseLine (op0 : String) (t : List String) (ptoks : List String) : String :=
   let isGw := op0.startsWith "g"
-  let op := if isGw then (op0.drop 1).toString else op0
+  -- "scgibuf" / "uwsgibuf": same case layout as "scgi" / "uwsgi"; observes scgi_create_env() at buffer level
+  let isBuf := op0 = "scgibuf" || op0 = "uwsgibuf"
+  let op := if isGw then (op0.drop 1).toString
+            else if op0 = "scgibuf" then "scgi" else if op0 = "uwsgibuf" then "uwsgi" else op0
   match t with
   | [po, fl, ext, docroot, strip, basedir, pinfoK, srvtok, aux, sname, raddr, rport, tag, renv, px,
      _head, body, sched] =>
@@ -277,6 +280,20 @@ def caseLine (op0 : String) (t : List String) (ptoks : List String) : String :=
             else if isScgi then
               let sopts : CgiOpts := { docroot := docroot }
               let env := cgiEnv sopts req
+              if isBuf then
+                -- the buffer-level model (placeholder, in-place header, chunk offset), right after create_env
+                let bres : ScgiBuf.Res :=
+                  if op = "scgi" then
+                    (match ScgiBuf.scgi env bodyLen seg0 with | some s => .ok s | none => .status 999)
+                  else ScgiBuf.uwsgi env bodyLen seg0
+                match bres with
+                | .status c => echo ++ "st=" ++ toString c
+                | .ok s =>
+                  echo ++ "buf off=" ++ toString s.offset ++ " hid=" ++ fastHex s.hidden ++
+                    " reqlen=" ++ toString s.st.reqlen ++ " in=" ++ toString s.bytesIn ++
+                    " bo=" ++ toString s.bytesOut ++ " pend=" ++ toString s.st.pending.length ++
+                    " out=" ++ fastHex s.st.out
+              else
               let res : Uwsgi.Res :=
                 if op = "scgi" then .ok (Scgi.createEnv env bodyLen seg0)
                 else Uwsgi.createEnv env bodyLen seg0
